@@ -154,6 +154,7 @@ fn case(proto: Proto, layer: Layer) -> BoxedStrategy<AssertCase> {
     1 => Just(Related::CaseFlip),
     2 => any::<u8>().prop_map(Related::LastByte),
     2 => prop_oneof![gen::jsonish(16), gen::unicode(6)].prop_map(Related::Other),
+    3 => (any::<bool>(), any::<u8>()).prop_map(|(a, i)| Related::Decorate(a, i)),
   ];
   (tok_spec(proto, layer), "[A-Za-z0-9]{12}", rel, any::<u8>()).prop_map(|(tok, tag, rel, split)| AssertCase { tok, tag, rel, split }).boxed()
 }
